@@ -246,6 +246,8 @@ theorem policyStep_refused (s : Session) (op : PolicyOp) (h : (policyStep s op).
   | authValue => simp [policyStep] at h
   | password => simp [policyStep] at h
   | restart => simp [policyStep] at h
+  | assert cc args => simp [policyStep] at h
+  | update cc name ref => simp [policyStep] at h
   | pcr sel values given g =>
     by_cases ht : s.trial = true
     · simp [policyStep, ht] at h
@@ -277,6 +279,8 @@ theorem policyStep_frame (s : Session) (op : PolicyOp) :
   | authValue => simp [policyStep]
   | password => simp [policyStep]
   | restart => simp [policyStep]
+  | assert cc args => simp [policyStep]
+  | update cc name ref => simp [policyStep]
   | pcr sel values given g =>
     by_cases ht : s.trial = true
     · simp [policyStep, ht]
@@ -525,5 +529,43 @@ example :
     (st'.ent 0x80000001).map (fun e => (checkOne st' e 0x155 .user [] { sh := TPM_RS_PW, nonce := [], attrs := 0, hmac := [0x6b, 0x31] },
                                         checkOne st' e 0x155 .user [] { sh := TPM_RS_PW, nonce := [], attrs := 0, hmac := [0x63, 0x37] }))
       = some (.failAuth, .pass) := by decide
+
+/-! ### The assertions that only extend the policy digest -/
+
+/-- what a digest-extending assertion does: policyDigest' = H(policyDigest ‖ commandCode ‖ args), always accepted, nothing else
+    of the session moves (not the demanded authValue proof, not the fixed command code, not the PCR binding) -/
+theorem policyAssert_effect (s : Session) (cc : Nat) (args : Bytes) :
+    (policyStep s (.assert cc args)).2 = 0 ∧
+    (policyStep s (.assert cc args)).1 = { s with pDigest := hash sha256 (s.pDigest ++ be32 cc ++ args) } := by
+  simp [policyStep]
+
+/-- `PolicyContextUpdate` (PolicySecret, PolicySigned): two hashes, the entity's Name in the first, the policyRef in the second -/
+theorem policyUpdate_effect (s : Session) (cc : Nat) (name ref : Bytes) :
+    (policyStep s (.update cc name ref)).2 = 0 ∧
+    (policyStep s (.update cc name ref)).1.pDigest = hash sha256 (hash sha256 (s.pDigest ++ be32 cc ++ name) ++ ref) := by
+  simp [policyStep]
+
+theorem be32_length' (n : Nat) : (be32 n).length = 4 := rfl
+
+/-- **the hashed input separates its parts**: for digests of equal length (they are all 32 bytes) the input
+    policyDigest ‖ commandCode ‖ args determines the old digest, the command code (mod 2³²) and the arguments — two different
+    assertions, or the same assertion on different digests, never feed the hash the same bytes -/
+theorem policyInput_inj (old old' : Bytes) (cc cc' : Nat) (args args' : Bytes) (hl : old.length = old'.length)
+    (h : old ++ be32 cc ++ args = old' ++ be32 cc' ++ args') : old = old' ∧ be32 cc = be32 cc' ∧ args = args' := by
+  rw [List.append_assoc, List.append_assoc] at h
+  have h1 := List.append_inj h hl
+  have h2 := List.append_inj h1.2 (by simp [be32_length'])
+  exact ⟨h1.1, h2.1, h2.2⟩
+
+/-- a chain of assertions is the left fold of the single steps; every step succeeds (the digest after the chain is therefore
+    a function of the start digest and the list of (commandCode, args) alone, in that order) -/
+theorem policyChain_ok (s : Session) (ops : List (Nat × Bytes)) :
+    (ops.foldl (fun st o => (policyStep st (.assert o.1 o.2)).1) s).pDigest =
+      ops.foldl (fun d o => hash sha256 (d ++ be32 o.1 ++ o.2)) s.pDigest := by
+  induction ops generalizing s with
+  | nil => rfl
+  | cons o os ih => simp only [List.foldl_cons]; rw [ih]; simp [policyStep]
+
+example : (policyStep exSess (.assert 0x16F [1])).1.pDigest = hash sha256 (exSess.pDigest ++ be32 0x16F ++ [1]) := by simp [policyStep]
 
 end TpmVerif.Props.C04
